@@ -251,8 +251,26 @@ func (s *Sim) CompactFiles(id uint64, from, n int, fast bool) (int, error) {
 	if from+n > len(files) {
 		n = len(files) - from
 	}
+	// The engine's planner never splits a generation (after a crash inside a
+	// compaction the output NNN-(s+1) can stand beside an input NNN-s; the
+	// output of compacting a part of that generation would take the name of
+	// the file left out), so the run is widened to whole generations.
+	gen := func(i int) int {
+		g, _, err := tsm1.DefaultParseFileName(files[i].Path())
+		if err != nil {
+			return -i - 1
+		}
+		return g
+	}
+	end := from + n
+	for from > 0 && gen(from-1) == gen(from) {
+		from--
+	}
+	for end < len(files) && gen(end) == gen(end-1) {
+		end++
+	}
 	var g tsm1.CompactionGroup
-	for _, f := range files[from : from+n] {
+	for _, f := range files[from:end] {
 		g = append(g, f.Path())
 	}
 	e.VerifCompactGroup(g, 4, fast, true, fast)
